@@ -166,3 +166,65 @@ Section Scale.
     Qed.
   End Run.
 End Scale.
+
+(** time-dependent parameters: nu(t) -> c nu(t/c), m(t) -> m(t/c)/c, gamma(t) -> gamma(t/c)/c, theta0(t) -> theta0(t/c)/c *)
+Section TimeDependent.
+  Variable c : R.
+  Hypothesis Hc : 0 < c.
+  Variable shape : list nat.
+  Variable grids : list (list R).
+  Hypothesis Hgrids : forall k, (k < length shape)%nat -> length (nth k grids []) = ax_len shape k /\ (2 <= length (nth k grids []))%nat.
+  Variable popsf : R -> list (@pop R).
+  Variable thetaf : R -> R.
+  Hypothesis Hwf : forall s, wf_pops shape (popsf s).
+  Variable dj : bool.
+  Variable tf : R.
+  Hypothesis Htf : 0 < tf.
+  Hypothesis Hns : forall s dt, 0 < dt -> nonsingular shape grids (popsf s) dj dt.
+
+  Definition popsf' (s : R) : list (@pop R) := map (rescale_pop c) (popsf (s / c)).
+  Definition thetaf' (s : R) : R := thetaf (s / c) / c.
+
+  Lemma unscale t : c * t / c = t.
+  Proof. field. lra. Qed.
+
+  Lemma popsf'_at s : popsf' (c * s) = map (rescale_pop c) (popsf s).
+  Proof. unfold popsf'. rewrite unscale. reflexivity. Qed.
+  Lemma thetaf'_at s : thetaf' (c * s) = thetaf s / c.
+  Proof. unfold thetaf'. rewrite unscale. reflexivity. Qed.
+
+  Lemma dt_of_pos' : forall (pops : list (@pop R)) x, dt_of tf pops = Some x -> 0 < x.
+  Proof.
+    induction pops as [|p l IHl]; intros x Hx; [discriminate|].
+    cbn [dt_of fold_right] in Hx. fold (dt_of tf l) in Hx.
+    assert (Hcd : forall y, compute_dt tf p = Some y -> 0 < y).
+    { intros y Hy. unfold compute_dt, nltb in Hy. numR. destruct (Rleb (maxVM p) 0) eqn:E; cbn [negb] in Hy; [discriminate|].
+      apply Rleb_false in E. injection Hy as <-. apply Rdiv_lt_0_compat; assumption. }
+    destruct (compute_dt tf p) as [y|] eqn:Ey, (dt_of tf l) as [z|] eqn:Ez; cbn [omin] in Hx; try discriminate.
+    - injection Hx as <-. unfold nmin. numR. destruct (Rleb y z); [apply Hcd; reflexivity | apply IHl; reflexivity].
+    - injection Hx as <-. apply Hcd; reflexivity.
+    - injection Hx as <-. apply IHl; reflexivity.
+  Qed.
+
+  Theorem integrate_tdep_rescale_invariant : forall fuel t T phi,
+    integrate_tdep fuel shape grids popsf' thetaf' tf dj (c * t) (c * T) phi =
+    integrate_tdep fuel shape grids popsf thetaf tf dj t T phi.
+  Proof.
+    induction fuel as [|fuel IH]; intros t T phi; cbn [integrate_tdep]; unfold nltb; numR; rewrite (Rleb_mul_both c Hc).
+    - reflexivity.
+    - destruct (Rleb T t) eqn:ET; cbn [negb]; [reflexivity|]. apply Rleb_false in ET.
+      rewrite popsf'_at. rewrite (dt_of_rescale c Hc).
+      destruct (dt_of tf (popsf t)) as [dt|] eqn:Edt; cbn [option_map].
+      + replace (c * T - c * t) with (c * (T - t)) by ring. rewrite (nmin_mul c Hc).
+        assert (Hd : 0 < nmin dt (T - t)) by (unfold nmin; numR; destruct (Rleb dt (T - t)); [apply (dt_of_pos' _ _ Edt) | lra]).
+        replace (c * t + c * nmin dt (T - t)) with (c * (t + nmin dt (T - t))) by ring.
+        rewrite popsf'_at, thetaf'_at.
+        rewrite (step_rescale c Hc shape grids Hgrids (popsf (t + nmin dt (T - t))) (Hwf _) dj) by (apply Hns; exact Hd).
+        apply IH.
+      + replace (c * T - c * t) with (c * (T - t)) by ring.
+        replace (c * t + c * (T - t)) with (c * (t + (T - t))) by ring.
+        rewrite popsf'_at, thetaf'_at.
+        rewrite (step_rescale c Hc shape grids Hgrids (popsf (t + (T - t))) (Hwf _) dj) by (apply Hns; lra).
+        apply IH.
+  Qed.
+End TimeDependent.
